@@ -93,6 +93,23 @@ def _check_read_back(prog, data, nptdms, version, model):
     if fr.tdms_version != version:
         out.append("tdms_version %r, written %r" % (fr.tdms_version, version))
     chans, props, order = gw.expected(prog)
+    # the same file opened lazily: full reads and the concatenated chunk stream of every channel equal the eager data
+    try:
+        fl = T.open(src(), raw_timestamps=False)
+        for key in chans:
+            le = fc[key[0]][key[1]][:]
+            ll = fl[key[0]][key[1]]
+            parts = [c[:] for c in ll.data_chunks()]
+            for label, g in (("[:]", ll[:]), ("the concatenated data_chunks()", np.concatenate(parts) if parts else le[:0]), ("[len//2:]", ll[len(le) // 2:])):
+                want = le[len(le) // 2:] if label.startswith("[len") else le
+                if canon.value_bytes(np.asarray(g)) != canon.value_bytes(np.asarray(want)):
+                    out.append("channel %r: TdmsFile.open(...) %s gives %s, TdmsFile.read gives %s" % (key, label, canon.value_bytes(np.asarray(g))[:5], canon.value_bytes(np.asarray(want))[:5]))
+                    break
+        fl.close()
+    except KeyError:
+        pass        # reported below
+    except Exception as ex:  # noqa
+        out.append("reading the written file lazily raised %s: %s" % (type(ex).__name__, str(ex)[:120]))
     for key, descs in chans.items():
         try:
             cr, cc = fr[key[0]][key[1]], fc[key[0]][key[1]]
